@@ -7,6 +7,8 @@ import MpirProofs.Lemmas.Mulmod2expm1f
 import MpirProofs.Props.C01_fftring
 import MpirProofs.Props.C08_limb
 import MpirProofs.Lemmas.PowmReal
+import MpirProofs.Lemmas.NextSize
+import Mpir.Ops.Hgcd
 namespace Mpir.Mm1
 open Mpir Mpir.Fft
 
@@ -243,5 +245,35 @@ example : mpnPowmMemR 1 1 Fft.mulmod_2expp1_basecase id (fun n => 6 * n + 220) 2
     (toLimbs 2 (val [3, 4, 5] ^ 77 % val [7, 9]), true) ∧
     mpnPowmMemR 1 12 Fft.mulmod_2expp1_basecase id (fun n => 6 * n + 220) 232 [3, 4, 5] [77] [7, 9] =
     (toLimbs 2 (val [3, 4, 5] ^ 77 % val [7, 9]), true) := by decide +kernel
+
+/-! ## mpn_mulmod_bnm1_next_size -/
+
+/-- **mpn_mulmod_bnm1_next_size** (gmp-impl.h:3876, `2·mpir_fft_adjust_limbs ((n + 1)/2)` above
+    `2·FFT_MULMOD_2EXPP1_CUTOFF`; fft/mulmod_2expp1.c:181) with the constants of the pinned build
+    (FFT_MULMOD_2EXPP1_CUTOFF = 128, FFT_N_NUM = 19, MULMOD_TAB): `n ≤ rn < 2n` for EVERY `n ≥ 1` — mulmod_bnm1's
+    `ASSERT (an <= rn)` and redc_n's `ASSERT_ALWAYS (2 * n > rn)` hold for every size. -/
+theorem next_size_bounds (n : Nat) (hn : 1 ≤ n) :
+    n ≤ Mpir.Hgcd.bnm1NextSize 128 19 [4, 3, 3, 4, 3, 3, 3, 3, 3, 2, 2, 2, 2, 2, 2, 2, 2, 1, 1] n ∧
+    Mpir.Hgcd.bnm1NextSize 128 19 [4, 3, 3, 4, 3, 3, 3, 3, 3, 2, 2, 2, 2, 2, 2, 2, 2, 1, 1] n < 2 * n :=
+  bnm1NextSize_bounds n hn
+
+-- the function the driver compares with the library (generated parameters) is this one; values beyond the cutoff
+example : Mpir.Ops.Hgcd.nextSize = Mpir.Hgcd.bnm1NextSize 128 19 [4, 3, 3, 4, 3, 3, 3, 3, 3, 2, 2, 2, 2, 2, 2, 2, 2, 1, 1] := by rfl
+example : Mpir.Hgcd.bnm1NextSize 128 19 tab19 257 = 320 ∧ Mpir.Hgcd.bnm1NextSize 128 19 tab19 256 = 256 ∧
+    Mpir.Hgcd.bnm1NextSize 128 19 tab19 1000 = 1024 := by decide +kernel
+
+/-- `mpn_powm_correct_all_sizes` for the pinned build: the next-size hypothesis is discharged by `next_size_bounds`,
+    so mpn_powm on memory — over the real mpn_redc_n, mpn_mulmod_bnm1, mpn_mulmod_2expm1 — is correct for every
+    odd modulus of every size, every exponent and base, assuming only the contract `P1Spec` of the +1 half. -/
+theorem mpn_powm_correct_pinned (thr mthr : Nat) (pp1 : P1) (hpp1 : P1Spec pp1) (binvItch : Nat → Nat)
+    (itch : Nat) (bp ep mp : List Nat)
+    (hep : Norm ep) (hne : ep ≠ []) (hmp : Limbs mp) (hn : 1 ≤ mp.length) (hodd : val mp % 2 = 1)
+    (hitch : 2 * mp.length ≤ itch) (hbinv : thr ≤ mp.length → binvItch mp.length ≤ itch) :
+    (mpnPowmMemR thr mthr pp1 (Mpir.Hgcd.bnm1NextSize 128 19 tab19) binvItch itch bp ep mp).2 = true ∧
+    (mpnPowmMemR thr mthr pp1 (Mpir.Hgcd.bnm1NextSize 128 19 tab19) binvItch itch bp ep mp).1 =
+      toLimbs mp.length (val bp ^ val ep % val mp) :=
+  let h := mpn_powm_correct_all_sizes thr mthr pp1 hpp1 _ binvItch itch bp ep mp hep hne hmp hn hodd
+    (fun _ => bnm1NextSize_bounds mp.length hn) hitch hbinv
+  ⟨h.1, h.2.1⟩
 
 end Mpir.Mm1
